@@ -138,6 +138,12 @@ func Known(id string) bool {
 }
 func Symbolic() bool { return false }
 
+// SetEnv / GetEnv: environment answers chosen by the harness (e.g. whether the node's tx index contains the tx).
+var env = map[string]bool{}
+
+func SetEnv(name string, v bool) { env[name] = v }
+func GetEnv(name string) bool    { return env[name] }
+
 // Non-forking boolean connectives and byte-string predicates (the engine builds one SMT term instead of branching).
 func And(a, b bool) bool     { return a && b }
 func Or(a, b bool) bool      { return a || b }
